@@ -13,3 +13,19 @@ def p_dataframe(ex, path, *a, **k):
 
 PRIMS["pd.DataFrame"] = ("pdDataFrame",)
 PRIMS["Iterable"] = ("Iterable",)
+
+
+# ---- mutating methods: logged for the frame analysis (DESIGN 5.3); the value model treats them as no-ops on purpose,
+# because the frame obligation fails as soon as one of them touches an array that is not fresh
+def _mutator(name):
+    def f(ex, path, x, *a, **k):
+        prov = x.prov if isinstance(x, T) else "scalar"
+        ex.stores.append((f"in-place {name}", prov, 0))
+        if prov == "fresh" or prov.startswith("view:fresh"):
+            raise Unsupported(f"in-place {name} on a fresh array (value model missing)")
+        return None
+    return f
+
+
+for _n in ("sort", "fill", "resize", "put", "partition", "itemset"):
+    prim("ndarray." + _n)(_mutator(_n))
